@@ -46,6 +46,9 @@ fn char_set(aux: &str, boundaries: &[u32]) -> Vec<char> {
     }
     // fixed interesting points
     v.extend([0x2FF, 0x300, 0x36F, 0x370, 0x37E, 0x37F, 0x1FFF, 0x2000, 0x200B, 0x200C, 0x200D, 0x200E, 0x203F, 0x2040, 0x2041, 0x206F, 0x2070, 0x218F, 0x2190, 0x2BFF, 0x2C00, 0x2FEF, 0x2FF0, 0x3000, 0x3001, 0xD7FF, 0xE000, 0xF8FF, 0xF900, 0xFDCF, 0xFDD0, 0xFDEF, 0xFDF0, 0xFFFD, 0xFFFE, 0xFFFF, 0x10000, 0x10400, 0x10428, 0xEFFFF, 0xF0000, 0xFFFFD, 0xFFFFE, 0x100000, 0x10FFFD, 0x10FFFE, 0x10FFFF]);
+    // both ends of every run of equal general category (a few thousand points): any escape or
+    // class built from categories can only change membership at these points
+    v.extend(category_run_boundaries().iter().copied());
     let mut rng = Rng::new(seed ^ 0xC0FFEE);
     for _ in 0..2500 {
         // half of the sample in the BMP, where most structure is
@@ -55,6 +58,32 @@ fn char_set(aux: &str, boundaries: &[u32]) -> Vec<char> {
     v.sort();
     v.dedup();
     v.into_iter().filter_map(char::from_u32).collect()
+}
+
+fn category_run_boundaries() -> &'static Vec<u32> {
+    static B: std::sync::OnceLock<Vec<u32>> = std::sync::OnceLock::new();
+    B.get_or_init(|| {
+        let mut v = vec![];
+        let mut prev: Option<(char, &'static str)> = None;
+        for c in all_scalars() {
+            let g = uoracle::gc2(c);
+            match prev {
+                Some((pc, pg)) if pg != g || (c as u32) != (pc as u32) + 1 => {
+                    v.push(pc as u32);
+                    v.push(c as u32);
+                }
+                None => v.push(c as u32),
+                _ => {}
+            }
+            prev = Some((c, g));
+        }
+        if let Some((pc, _)) = prev {
+            v.push(pc as u32);
+        }
+        v.sort();
+        v.dedup();
+        v
+    })
 }
 
 fn block_boundaries() -> Vec<u32> {
@@ -71,7 +100,7 @@ pub struct C09;
 
 impl Monitor for C09 {
     fn rule(&self) -> &'static str {
-        "a case = one generated character class expression (nesting depth <= 3; single characters, ranges, class escapes, \\p{..}/\\P{..}, negation, subtraction; metacharacters and hyphens escaped) x a set of scalar values: ALL 1,112,064 scalar values in the thorough tier; in the quick tier all of U+0000-U+024F, every range/character boundary +-1, fixed boundary points and a seeded sample of 2,500. Oracle: set algebra evaluated per character on independent per-character predicates (no inversion lists). Also [c] = c, and the class under * / + / inside a group matches the same set (inputs of length <= 3). evaluations counts class expressions; membership tests are counted separately. Non-trivial: the expression has >= 2 items, a negation or a subtraction."
+        "a case = one generated character class expression (nesting depth <= 3; single characters, ranges, class escapes, \\p{..}/\\P{..}, negation, subtraction; metacharacters and hyphens escaped) x a set of scalar values: ALL 1,112,064 scalar values in the thorough tier; in the quick tier all of U+0000-U+024F, every range/character boundary +-1, both ends of every run of equal general category, fixed boundary points and a seeded sample of 2,500. Oracle: set algebra evaluated per character on independent per-character predicates (no inversion lists). Also [c] = c, and the class under * / + / inside a group matches the same set (inputs of length <= 3). evaluations counts class expressions; membership tests are counted separately. Non-trivial: the expression has >= 2 items, a negation or a subtraction."
     }
     fn focus(&self, c: &Case, f: &Finding) -> Case {
         let mut c2 = c.clone();
@@ -250,7 +279,7 @@ pub fn all_escapes() -> Vec<String> {
 
 impl Monitor for C10 {
     fn rule(&self) -> &'static str {
-        "a case = one escape (each of the 36 category names incl. one-letter groups, every block name of Blocks.txt / CompatBlocks.txt with spaces removed plus PrivateUse, \\d \\w \\s \\i \\c, and all complements) x a set of scalar values: ALL 1,112,064 in the thorough tier; in the quick tier U+0000-U+024F, every block boundary +-1, fixed boundary points and a seeded sample of 2,500. Oracle: icu_properties' per-code-point general-category trie mapped to names by a table in the harness, the XML 1.0 (5th ed.) name productions typed in from the specification, blocks parsed from the UCD text files. Oracle-free identities: exactly one two-letter category matches every scalar value; each one-letter group = union of its members; \\P \\D \\W \\S \\I \\C are complements. Unknown names (two-letter combinations not in the list, block names with one edited character) must be rejected. Non-trivial: every escape; distinct by escape and character set."
+        "a case = one escape (each of the 36 category names incl. one-letter groups, every block name of Blocks.txt / CompatBlocks.txt with spaces removed plus PrivateUse, \\d \\w \\s \\i \\c, and all complements) x a set of scalar values: ALL 1,112,064 in the thorough tier; in the quick tier U+0000-U+024F, every block boundary +-1, both ends of every run of equal general category, fixed boundary points and a seeded sample of 2,500. Oracle: icu_properties' per-code-point general-category trie mapped to names by a table in the harness, the XML 1.0 (5th ed.) name productions typed in from the specification, blocks parsed from the UCD text files. Oracle-free identities: exactly one two-letter category matches every scalar value; each one-letter group = union of its members; \\P \\D \\W \\S \\I \\C are complements. Unknown names (two-letter combinations not in the list, block names with one edited character) must be rejected. Non-trivial: every escape; distinct by escape and character set."
     }
     fn focus(&self, c: &Case, f: &Finding) -> Case {
         C09.focus(c, f)
